@@ -151,8 +151,6 @@ func sameList(got []string, want []hrec) bool {
 	return true
 }
 
-func holList(l interface{ Len() int }, strs []string) []string { return strs }
-
 // c14Views compares every view with the model. full=false restricts to the keys touched by the records in 'focus'.
 func c14Views(w *W, recs []hrec, ctx string, full bool, focus ...hrec) {
 	byDay := map[string]hrec{}
@@ -165,12 +163,6 @@ func c14Views(w *W, recs []hrec, ctx string, full bool, focus ...hrec) {
 		byYear[r.day[:4]] = append(byYear[r.day[:4]], r)
 		byTarget[r.target] = append(byTarget[r.target], r)
 	}
-	strs := func(l interface {
-		Len() int
-	}) []string {
-		return nil
-	}
-	_ = strs
 	checkDay := func(d string) {
 		y, m, dd := atoi(d[:4]), atoi(d[4:6]), atoi(d[6:8])
 		w.Curf("C14 %s day %s", ctx, d)
@@ -508,21 +500,6 @@ func c14Rate(w *W, y int) {
 }
 
 // ---- Fix fuzzer
-
-func segOf(r hrec, names []string) string {
-	ni := 0
-	for i, n := range names {
-		if n == r.name {
-			ni = i
-			break
-		}
-	}
-	f := "1"
-	if r.work {
-		f = "0"
-	}
-	return r.day + string(rune('0'+ni)) + f + r.target
-}
 
 func c14Fix(w *W, id int) {
 	rng := w.Rng
